@@ -250,7 +250,7 @@ def validate_traces(module: str, traces: List[dict], *, constants: str = "",
                 raise MachineryError(f"trace validation of {module} failed without a verdict:\n"
                                      + "\n".join(r.errors[:5]) + "\n" + r.stdout[-3000:])
             rejected += rej_here
-            acc += n - len(rej_here)
+            acc += n - len({x["tid"] for x in rej_here})
         return TraceVerdict(acc, rejected, gen, dist, time.time() - t0)
     finally:
         shutil.rmtree(sd, ignore_errors=True)
